@@ -947,6 +947,10 @@ def _ast_families(src, tree):
         if isinstance(n, ast.Starred) and isinstance(getattr(n, "ctx", None), ast.Load) and \
                 (_is_num(n.value) or (isinstance(n.value, ast.Constant) and isinstance(n.value.value, bool))):
             f.add("star_unpack_of_numeric_literal")
+        if isinstance(n, ast.Set) and len(n.elts) > 1 and any(
+                isinstance(e, ast.Starred) and isinstance(e.value, (ast.Tuple, ast.List)) and any(isinstance(x, ast.Starred) for x in e.value.elts)
+                for e in n.elts) and not isinstance(n.elts[0], ast.Starred):
+            f.add("set_display_item_then_starred_display_with_star")
         if isinstance(n, ast.ExceptHandler) and isinstance(n.type, ast.Tuple) and any(isinstance(x, ast.Starred) for x in n.type.elts):
             f.add("starred_in_except_tuple")
         if (isinstance(n, ast.comprehension) and n.is_async or isinstance(n, ast.AsyncFor)) and \
@@ -1110,6 +1114,7 @@ FAMILY_RULES = [
     ("await_in_nested_def_header", "positioned", r"^'await' not (supported here|allowed in generators)", "await_in_nested_def_header"),
     ("star_in_subscript", "positioned", r"^starred expression is not allowed here", "star_in_subscript"),
     ("unparenthesized_walrus_in_subscript", "positioned", r"^invalid syntax: assignment expression not allowed in this context", "unparenthesized_walrus_in_subscript"),
+    ("set_display_item_then_starred_display_with_star", "positioned", r"^starred expression is not allowed here", "set_display_item_then_starred_display_with_star"),
     ("starred_in_except_tuple", "positioned", r"^starred expression is not allowed here", "starred_in_except_tuple"),
     ("match_bytes_literal_nested_sequence_pattern", "positioned", r"^Attempting to index non-array type 'int'", "match_bytes_literal_nested_sequence_pattern"),
     ("complex_literal_truth_test", "positioned", r"^Type 'double complex' not acceptable as a boolean", "complex_literal_truth_test"),
@@ -1315,6 +1320,7 @@ FAMILY_PROBES = [
     ("for_c_bool_display", ".py", "for a in (not set,):\n    pass\n", "module_level_for_over_single_c_bool_display"),
     ("unary_plus_method", ".py", "x = +b'a'.join\n", "arith_on_builtin_method_of_literal"),
     ("cmp_method", ".py", "x = 'a'.join < 1\n", "arith_on_builtin_method_of_literal"),
+    ("set_nested_star", ".py", "v = [1]\nx = {1, *(*v, 2)}\n", "set_display_item_then_starred_display_with_star"),
     ("yield_decorator", ".py", "def g(d):\n    @d((yield))\n    def f(): pass\n", "yield_in_function_decorator"),
     ("async_for_literal", ".py", "async def f():\n    return [i async for i in 1.5]\n", "async_for_over_numeric_literal"),
 ]
